@@ -198,6 +198,18 @@ fn scratch(h: &H) -> BTreeMap<String, String> {
     std::fs::write(res.join("g.md"), crlf).ok();
     expect.insert("g:crlf".to_string(), "addone inv | addone inv".to_string());
     expect.insert("g:cr".to_string(), "addone".to_string());
+    // the second place Plain looks in: the user's data directory.  A register of the same name
+    // as a local one, holding an item the local one lacks; a register and a file found only there
+    let user = dir.join("userdata");
+    let ures = user.join("geodesy").join("resources");
+    std::fs::create_dir_all(&ures).ok();
+    std::fs::write(ures.join("f.md"), "```geodesy:reg\nnoop\n```\n\n```geodesy:elsewhere\naddone | noop\n```\n").ok();
+    expect.insert("f:elsewhere".to_string(), "addone | noop".to_string());
+    std::fs::write(ures.join("u.md"), "```geodesy:only\naddone inv | noop\n```\n").ok();
+    expect.insert("u:only".to_string(), "addone inv | noop".to_string());
+    std::fs::write(ures.join("u_file.resource"), "noop | addone").ok();
+    expect.insert("u:file".to_string(), "noop | addone".to_string());
+    std::env::set_var("XDG_DATA_HOME", &user);
     let _ = std::env::set_current_dir(&dir);
     expect
 }
@@ -211,6 +223,8 @@ pub fn run(h: &H) {
             h.guard(idx, "threads sharing contexts and the grid cache", || threaded(h, idx, &mut rng));
         } else if idx % 16 == 14 {
             h.guard(idx, "file based macros", || file_macros(h, idx, &files));
+        } else if idx % 16 == 13 && (idx / 16) % 4 == 0 {
+            h.guard(idx, "a user operator that refuses a definition still shadows the built-in", || strict_shadow(h, idx));
         } else if idx % 16 == 13 {
             h.guard(idx, "what one operation leaves behind is invisible to the others", || leftovers(h, idx, &mut rng));
         } else {
@@ -270,6 +284,51 @@ fn leftovers(h: &H, idx: u64, rng: &mut Rng) {
     }
     h.class("leftovers/stack");
     let _ = &mut ctxs;
+}
+
+fn strict_fwd(op: &Op, _ctx: &dyn Context, operands: &mut dyn CoordinateSet) -> usize {
+    let k = op.params.real("amount").unwrap_or(0.0);
+    for i in 0..operands.len() {
+        let mut c = operands.get_coord(i);
+        c[0] += k;
+        operands.set_coord(i, &c);
+    }
+    operands.len()
+}
+
+fn strict_new(parameters: &RawParameters, ctx: &dyn Context) -> Result<Op, Error> {
+    const G: [OpParameter; 2] = [OpParameter::Flag { key: "inv" }, OpParameter::Real { key: "amount", default: None }];
+    Op::plain(parameters, InnerOp(strict_fwd), None, &G, ctx)
+}
+
+/// A user operator registered under the name of a built-in is the one that answers for that
+/// name from then on, also when it refuses the definition: resolution does not fall through
+fn strict_shadow(h: &H, idx: u64) {
+    let mut run = |label: &str, ctx: &mut dyn Context| {
+        let before = ctx.op("addone").is_ok();
+        ctx.register_op("addone", OpConstructor(strict_new));
+        h.eval(3);
+        h.class("strict-user-operator");
+        let plain = ctx.op("addone");
+        let in_pipeline = ctx.op("noop | addone | noop");
+        let with_arg = ctx.op("addone amount=3");
+        if !before || plain.is_ok() || in_pipeline.is_ok() || with_arg.is_err() {
+            v(
+                h,
+                idx,
+                "user-operator-does-not-shadow-the-built-in-when-it-refuses",
+                J::obj()
+                    .set("context", label)
+                    .set("built_in_before_registration", before)
+                    .set("addone", format!("{:?}", plain.map(|_| "instantiated")))
+                    .set("in_pipeline", format!("{:?}", in_pipeline.map(|_| "instantiated")))
+                    .set("addone amount=3", format!("{:?}", with_arg.map(|_| "instantiated"))),
+            );
+        }
+    };
+    run("Minimal", &mut Minimal::new());
+    run("Plain", &mut Plain::new());
+    h.distinct(crate::rng::mix(idx, 14));
 }
 
 fn file_macros(h: &H, idx: u64, files: &BTreeMap<String, String>) {
